@@ -49,6 +49,11 @@ def _extra():
         add("deferred-plusplus", "unsigned char j, k, arr[10];", "arr[5] = 1; arr[6] = 2; arr[7] = 3; X = j; k = arr[X++]; j = X;", {"init": {"j": 5}, "expect": {"k": 1, "j": 6}}, "")
         add("deferred-plusplus-in-switch-expression", "unsigned char j, r;", "r = 0; switch (j++) { case 0: r = 1; break; case 5: r = 2; break; }", {"init": {"j": j}, "expect": {"r": {0: 1, 5: 2}.get(j, 0), "j": (j + 1) & 255}}, "j=%d" % j)
         add("deferred-plusplus-in-dowhile-condition", "unsigned char j, k, n;", "n = 0; do { n++; } while (j-- != 0);", {"init": {"j": j}, "expect": {"n": j + 1, "j": 255}}, "j=%d" % j)
+    # a register whose value the optimizer knows, compared with an immediate (compare folding at -O1): every relational operator, carry clear on entry
+    for op, ex in ((">", 1), (">=", 1), ("<", 0), ("<=", 0), ("==", 0), ("!=", 1)):
+        add("known-register-compare", "unsigned char i, r;", "Y = i + 1; r = 0; X = 5; if (X %s 3) r = 1;" % op, {"init": {"i": 0}, "expect": {"r": ex}}, "X = 5 %s 3" % op)
+        add("known-register-compare", "unsigned char i, r;", "X = i + 1; r = 0; Y = 3; if (Y %s 3) r = 1;" % op, {"init": {"i": 0}, "expect": {"r": int(eval("3 %s 3" % op))}}, "Y = 3 %s 3" % op)
+    add("known-register-compare", "unsigned char i, rx, ry;", "Y = i + 1; for (X = 10; X > 2; X--) Y++; rx = X; ry = Y;", {"init": {"i": 0}, "expect": {"rx": 2, "ry": 9}}, "countdown with a known start")
     # loops: for / while / do-while agree
     for n in (0, 1, 5, 200):
         tot = sum(range(n)) & 255
